@@ -17,6 +17,7 @@ class StructDef:
         self.file = file
         self.line = line
         self.cfg = cfg                # list of cfg predicate strings that must hold
+        self.is_union = False
     def index_of(self, fname):
         for i, (n, _) in enumerate(self.fields):
             if n == fname:
@@ -329,6 +330,7 @@ class Items:
                         d = StructDef(name, gens, _parse_fields_tuple(s[j + 1:e]), 'tuple', rel, line, cfg)
                     else:
                         d = StructDef(name, gens, [], 'unit', rel, line, cfg)
+                    d.is_union = (kw == 'union')
                     self.structs.setdefault(name, []).append(d)
                 continue
             if kw == 'impl':
